@@ -12,24 +12,31 @@ RULE = ("fmt: the whole accepted grammar fill{none,' ','*','0','x'} x align{none
         "exists, 8% with a rejecting shape) x boundary/random values (1 per spec quick, 6 thorough), model py_format vs "
         "CPython format(); spec: grammar-random and mutated/invalid spec strings ('^', ',', 'n', precision, '00', "
         "unicode/brace/newline fills, '=' or sign or '#' with c/s, s on widths not multiple of 8) vs Format(...) "
-        "accept/ValueError and the dict of _parse_format_spec; sim: random sync designs (1-4 input signals, nested "
-        "If/Elif/Else and Switch/Case/Default, Print(Format) with 1-3 fields over sig/as_signed/as_unsigned/~/-, "
-        "Assert/Assume/Cover with and without message, pos/neg-edge domain, sync reset, async reset excluded) driven "
-        "by hand over 6-16 steps; observable = captured stdout + exception class/text + step index; "
+        "accept/ValueError (exception class by name) and the dict of _parse_format_spec; sim: random designs with 1-4 "
+        "testbench-driven inputs, 0-2 registers (`with m.If(en): m.d.<dom> += r.eq(r + step)`, signed/unsigned, "
+        "reset-less or not) read by fields/conditions/tests, 1-2 clock domains (pos/neg edge, no reset / sync reset / "
+        "async reset), an optional comb-domain program, nested If/Elif/Else and Switch/Case/Default (lowered by the "
+        "Gallina model), Print(Format) with 1-3 fields over sig/as_signed/as_unsigned/~/-, Assert/Assume/Cover with and "
+        "without message, driven by hand over 6-16 steps (set input / toggle one clock / change one reset); plus every "
+        "29th accepted spec of the grammar (every 3rd in thorough) printed by the real simulator for 3 values; "
+        "observable = captured stdout + exception class/text + step index; "
         "rtl: FORMAT parameter of the $print cell written by back.rtlil for Print(Format('x{' '{:spec}', sig)) over every "
         "13th spec of the grammar (all in thorough) + random + fixed ('<05', '5c', brace and non-ASCII fills) vs the model "
         "of emit_print's string building. "
-        "non-trivial = accepted spec (fmt/spec) or non-empty output/stop (sim); distinct by case hash")
+        "non-trivial = accepted spec (fmt/spec/rtl) or non-empty output/stop (sim); distinct by case hash")
 MODELLED = ("Format._FORMAT_SPEC_PATTERN/_parse_format_spec, _StatementCompiler.emit_format/on_Print/on_Property, "
-            "value_to_string, _emit_switch conditions and edge_waker, and the FORMAT string building of "
-            "back/rtlil.py emit_print are modelled in coq/Model/Format.v; the reading of the FORMAT items "
-            "(rchunks_render) follows the Yosys manual and is not validated (no Yosys available); CPython's "
-            "int.__format__/str.__format__/bytes.decode are modelled (py_format, utf8_decode) and validated against the "
-            "real CPython on the whole accepted grammar; the equality simulator-text = str.format holds because the "
-            "simulator calls str.format and is validated only; If/Switch lowering to nested conditions is done by the "
-            "harness (C02 owns the DSL lowering)")
+            "value_to_string, _emit_switch conditions (with the If/Switch lowering and Case pattern masks), edge_waker, "
+            "the sync process (statements on pre-edge values, then register update, reset), the comb process wake-up, "
+            "and the FORMAT string building of back/rtlil.py emit_print are modelled in coq/Model/Format.v; the "
+            "reading of the FORMAT items (rchunks_render) follows the Yosys manual and is not validated (no Yosys "
+            "available); CPython's int.__format__/str.__format__/bytes.decode are modelled (py_format, utf8_decode) "
+            "and validated against the real CPython on the whole accepted grammar; the equality simulator-text = "
+            "str.format holds because the simulator calls str.format and is validated only; submodules, FSMs and "
+            "control inserters are not generated here (C02/C03/C08 own them)")
 ASSUMPTIONS = ["CPython 3.12 int/str __format__ and UTF-8 decoding as modelled by Format.py_format (validated by the fmt stream)",
-               "async-reset domains excluded (finding F7 belongs to C03)"]
+               "async-reset domains: the model is run with the semantics of the unrepaired code for finding F7 "
+               "(F7_FAITHFUL in c20.py; theorem C20_async_reset_F7_refuted); the finding itself is listed under C03",
+               "two clocks are never toggled in the same testbench command (process order within one delta belongs to C08)"]
 SHARD = 600
 
 ALIGN = "<>="
@@ -175,6 +182,16 @@ def gen_cases(tier, seed):
     # --- stream 3: simulations
     for i in range(800 if not thorough else 12000):
         cases.append(_rand_sim(rng, thorough))
+    # --- stream 3b: every k-th spec of the grammar printed by the real simulator (3 values each)
+    k = 0
+    for fill_align, sign, alt, zero, width, grp, t in itertools.product(
+            fa, ["", "-", "+", " "], ["", "#"], ["", "0"], ["", "1", "5", "12"], ["", "_"], TYPES):
+        k += 1
+        if t in ("c", "s") and (sign or alt or zero or grp or "=" in fill_align):
+            continue                                   # rejected at construction: covered by the spec stream
+        if k % (3 if thorough else 29) != seed % (3 if thorough else 29):
+            continue
+        cases.append(_grammar_sim(rng, fill_align + sign + alt + zero + width + grp + t, t))
     # --- stream 4: FORMAT parameter of the emitted RTLIL $print cell (emission only; no Yosys here)
     k = 0
     for fill_align, sign, alt, zero, width, grp, t in itertools.product(
@@ -341,12 +358,33 @@ def _rand_sim(rng, thorough):
                 out.append(["prop", kind, vexpr(), msg])
         return out
 
-    top = rng.choice([0, 1, 1, 2, 2, 3])
-    prog = body(top)
-    pos = rng.random() < 0.7
-    has_rst = rng.random() < 0.5
+    # --- registers: `with m.If(en): m.d.<dom> += r.eq(r + step)`, read by prints / conditions / tests like inputs
+    ndom = 1 if rng.random() < 0.7 else 2
+    ninputs = nsig
+    regs = []
+    if rng.random() < 0.55:
+        for _ in range(rng.choice([1, 1, 2])):
+            sg = rng.random() < 0.3
+            w = rng.randrange(1 if sg else 0, 6)
+            lo, hi = (-(1 << (w - 1)), (1 << (w - 1)) - 1) if sg else (0, (1 << w) - 1)
+            sigs.append([w, sg])
+            regs.append({"i": len(sigs) - 1, "d": rng.randrange(ndom),
+                         "en": rng.randrange(ninputs) if rng.random() < 0.4 else None,
+                         "step": rng.choice([1, 1, 1, -1, 2, 3, 5]), "init": rng.randrange(lo, hi + 1),
+                         "rless": rng.random() < 0.3})
+        nsig = len(sigs)          # bodies drawn from here on may read the registers
+    doms = []
+    for d in range(ndom):
+        top = rng.choice([0, 1, 1, 2, 2, 3])
+        has_rst = rng.random() < 0.55
+        doms.append({"pos": rng.random() < 0.7, "rst": has_rst, "async": has_rst and rng.random() < 0.2,
+                     "prog": body(top)})
+    comb = []
+    if rng.random() < 0.25:
+        top = rng.choice([0, 1, 1, 2])
+        comb = body(top)
     steps = []
-    clk = 0
+    clk = [0] * ndom
 
     def rand_val(i):
         w, sg = sigs[i]
@@ -362,17 +400,41 @@ def _rand_sim(rng, thorough):
 
     for _ in range(rng.randrange(6, 17 if not thorough else 30)):
         r = rng.random()
-        if r < 0.45:
-            i = rng.randrange(nsig)
+        d = rng.randrange(ndom)
+        if r < 0.4:
+            i = rng.randrange(ninputs)
             steps.append(["set", i, rand_val(i)])
-        elif r < 0.92 or not has_rst:
-            clk = (1 - clk) if rng.random() < 0.9 else clk
-            steps.append(["clk", clk])
+        elif r < 0.9 or not doms[d]["rst"]:
+            clk[d] = (1 - clk[d]) if rng.random() < 0.9 else clk[d]
+            steps.append(["clk", d, clk[d]])
         else:
-            steps.append(["rst", rng.randrange(2)])
+            steps.append(["rst", d, rng.randrange(2) if rng.random() < 0.5 else 1])
     kinds = [k for k in ("print", "prop", "ctl") if stats[k]]
-    cls = "+".join(kinds) + ("+brace" if stats["brace"] else "") + ("+badspec" if stats["bad"] else "")
-    return {"k": "sim", "cls": cls, "sigs": sigs, "pos": pos, "rst": has_rst, "prog": prog, "steps": steps}
+    cls = ("+".join(kinds) + ("+reg" if regs else "") + ("+comb" if comb else "") + ("+2dom" if ndom > 1 else "")
+           + ("+async" if any(dm["async"] for dm in doms) else "")
+           + ("+brace" if stats["brace"] else "") + ("+badspec" if stats["bad"] else ""))
+    return {"k": "sim", "cls": cls, "sigs": sigs, "doms": doms, "comb": comb, "regs": regs, "steps": steps}
+
+
+def _grammar_sim(rng, spec, t):
+    """one Print of one field through the real simulator (ties the simulator, not only CPython, to every spec)"""
+    w, sg = _shape_for(rng, t)
+    vals = [v for v in _fmt_values(rng, t, w, 3)]
+    lo, hi = (-(1 << (w - 1)), (1 << (w - 1)) - 1) if sg else (0, (1 << w) - 1)
+    steps = []
+    for v in vals:
+        steps += [["set", 0, min(max(v, lo), hi) if w else 0], ["clk", 0, 1], ["clk", 0, 0]]
+    return {"k": "sim", "cls": "grammar", "sigs": [[w, sg]], "comb": [], "regs": [], "steps": steps,
+            "doms": [{"pos": True, "rst": False, "async": False, "prog": [["print", [["fld", ["sig", 0], spec]]]]}]}
+
+
+def _upgrade(c):
+    """cases recorded before designs had several domains"""
+    if "doms" in c:
+        return c
+    steps = [[st[0], st[1], st[2]] if st[0] == "set" else [st[0], 0, st[1]] for st in c["steps"]]
+    return {"k": "sim", "cls": c.get("cls", "?"), "sigs": c["sigs"], "comb": [], "regs": [], "steps": steps,
+            "doms": [{"pos": c["pos"], "rst": c["rst"], "async": False, "prog": c["prog"]}]}
 
 
 # ------------------------------------------------------------------ implementation side
@@ -472,20 +534,31 @@ def _run_rtl(c):
 def _run_sim(c):
     from amaranth.hdl import Shape, Signal, Format, Module, ClockDomain, Print, Assert, Assume, Cover
     from amaranth.sim import Simulator
-    sigs = [Signal(Shape(w, sg), name=f"s{i}") for i, (w, sg) in enumerate(c["sigs"])]
+    c = _upgrade(c)
+    regs = {r["i"]: r for r in c["regs"]}
+    sigs = []
+    for i, (w, sg) in enumerate(c["sigs"]):
+        if i in regs:
+            sigs.append(Signal(Shape(w, sg), name=f"r{i}", init=regs[i]["init"], reset_less=regs[i]["rless"]))
+        else:
+            sigs.append(Signal(Shape(w, sg), name=f"s{i}"))
     m = Module()
-    cd = ClockDomain("sync", clk_edge="pos" if c["pos"] else "neg", reset_less=not c["rst"])
-    m.domains.sync = cd
+    cds = []
+    for k, dm in enumerate(c["doms"]):
+        cd = ClockDomain(f"d{k}", clk_edge="pos" if dm["pos"] else "neg", reset_less=not dm["rst"],
+                         async_reset=bool(dm["async"]))
+        m.domains += cd
+        cds.append(cd)
     prefixes = []
 
     def val(e):
         s = sigs[e[1]]
         return {"sig": lambda: s, "as_s": s.as_signed, "as_u": s.as_unsigned, "inv": lambda: ~s, "neg": lambda: -s}[e[0]]()
 
-    def build(stmts):
+    def build(dn, stmts):
         for st in stmts:
             if st[0] == "print":
-                m.d.sync += Print(_mk_format(Format, st[1], val))
+                m.d[dn] += Print(_mk_format(Format, st[1], val))
             elif st[0] == "prop":
                 msg = st[3]
                 if msg is not None:
@@ -497,28 +570,37 @@ def _run_sim(c):
                 stmt = fn(val(st[2]), msg)
                 if st[1] == "cover":
                     prefixes.append("Coverage hit at {}:{}:".format(*stmt.src_loc))
-                m.d.sync += stmt
+                m.d[dn] += stmt
             elif st[0] == "if":
                 for j, (i, b) in enumerate(st[1]):
                     with (m.If(sigs[i]) if j == 0 else m.Elif(sigs[i])):
-                        build(b)
+                        build(dn, b)
                 if st[2] is not None:
                     with m.Else():
-                        build(st[2])
+                        build(dn, st[2])
             elif st[0] == "switch":
                 with m.Switch(sigs[st[1]]):
                     for p, b in st[2]:
                         with (m.Default() if p == "default" else m.Case(*p)):
-                            build(b)
+                            build(dn, b)
             else:
                 raise AssertionError(st)
 
     try:
-        build(c["prog"])
+        for k, dm in enumerate(c["doms"]):
+            build(f"d{k}", dm["prog"])
+        build("comb", c["comb"])
+        for r in c["regs"]:
+            reg = sigs[r["i"]]
+            if r["en"] is None:
+                m.d[f"d{r['d']}"] += reg.eq(reg + r["step"])
+            else:
+                with m.If(sigs[r["en"]]):
+                    m.d[f"d{r['d']}"] += reg.eq(reg + r["step"])
     except Exception as e:
         if type(e).__name__ == "ValueError":
             return [-2]
-        raise
+        return _exc_code(e)           # an unexpected class at construction is a disagreement, never dropped
     cur = [0]
 
     async def tb(ctx):
@@ -527,20 +609,17 @@ def _run_sim(c):
             if st[0] == "set":
                 ctx.set(sigs[st[1]], st[2])
             elif st[0] == "clk":
-                ctx.set(cd.clk, st[1])
+                ctx.set(cds[st[1]].clk, st[2])
             else:
-                ctx.set(cd.rst, st[1])
+                ctx.set(cds[st[1]].rst, st[2])
         cur[0] = len(c["steps"])
 
-    try:
-        sim = Simulator(m)
-    except SyntaxError as e:      # generated process code does not compile
-        return _exc_code(e)
-    sim.add_testbench(tb)
     buf = io.StringIO()
     code, msg = 0, ""
     with contextlib.redirect_stdout(buf):
         try:
+            sim = Simulator(m)
+            sim.add_testbench(tb)
             sim.run()
         except Exception as e:
             name = type(e).__name__
@@ -573,41 +652,58 @@ def _fmt_term(chunks):
     return "[" + "; ".join(out) + "]"
 
 
-def _pat(p):
-    mask = int("".join("0" if b == "-" else "1" for b in p) or "0", 2)
-    value = int("".join("0" if b == "-" else b for b in p) or "0", 2)
-    return f"({mask}, {value})"
-
-
-def _prog_term(stmts):
-    if not stmts:
-        return "PSkip"
-    terms = [_stmt_term(st) for st in stmts]
-    t = terms[-1]
-    for u in reversed(terms[:-1]):
-        t = f"PSeq ({u}) ({t})"
+def _dprog(stmts):
+    t = "DNil"
+    for st in reversed(stmts):
+        t = f"DCons ({_dstmt(st)}) ({t})"
     return t
 
 
-def _stmt_term(st):
+def _dstmt(st):
     if st[0] == "print":
-        return f"PPrint {_fmt_term(st[1])}"
+        return f"DPrint {_fmt_term(st[1])}"
     if st[0] == "prop":
         k = {"assert": "KAssert", "assume": "KAssume", "cover": "KCover"}[st[1]]
         m = "None" if st[3] is None else f"(Some {_fmt_term(st[3])})"
-        return f"PProp {k} ({_vexpr(st[2])}) {m}"
+        return f"DProp {k} ({_vexpr(st[2])}) {m}"
     if st[0] == "if":
-        t = _prog_term(st[2]) if st[2] is not None else "PSkip"
+        arms = "ANil"
         for i, b in reversed(st[1]):
-            t = f"PIf (CNz {i}) ({_prog_term(b)}) ({t})"
-        return t
+            arms = f"ACons {i} ({_dprog(b)}) ({arms})"
+        return f"DIf ({arms}) ({_dprog(st[2] or [])})"
     if st[0] == "switch":
-        t = "PSkip"
+        cs = "KNil"
         for p, b in reversed(st[2]):
-            ps = "[(0, 0)]" if p == "default" else "[" + "; ".join(_pat(x) for x in p) + "]"
-            t = f"PIf (CPat {st[1]} {ps}) ({_prog_term(b)}) ({t})"
-        return t
+            ps = "None" if p == "default" else "(Some [" + "; ".join(_s(x) for x in p) + "])"
+            cs = f"KCons {ps} ({_dprog(b)}) ({cs})"
+        return f"DSwitch {st[1]} ({cs})"
     raise ValueError(st)
+
+
+F7_FAITHFUL = True      # the model follows the unrepaired code for F7 (an async reset rise runs the sync process);
+                        # theorem C20_async_reset_F7_refuted states the deviation.  Set to False once F7 is fixed.
+
+
+def _design_term(c, f7, bf):
+    c = _upgrade(c)
+    sigs = "[" + "; ".join(f"Sh {w} {blit(sg)}" for w, sg in c["sigs"]) + "]"
+    doms = "[" + "; ".join(f"Dom {blit(d['pos'])} {blit(d['rst'])} {blit(d['async'])} (lower_prog ({_dprog(d['prog'])}))"
+                           for d in c["doms"]) + "]"
+    regs = "[" + "; ".join(f"Reg {r['i']} {r['d']} {'None' if r['en'] is None else '(Some %d%%nat)' % r['en']} {z(r['step'])} "
+                           f"{z(r['init'])} {blit(r['rless'])}" for r in c["regs"]) + "]"
+    steps = []
+    for st in c["steps"]:
+        if st[0] == "set":
+            steps.append(f"TSet {st[1]} {z(st[2])}")
+        elif st[0] == "clk":
+            steps.append(f"TClk {st[1]} {blit(st[2])}")
+        else:
+            steps.append(f"TRst {st[1]} {blit(st[2])}")
+    return (f"k_design {blit(f7)} {blit(bf)} (Design {sigs} {doms} (lower_prog ({_dprog(c['comb'])})) {regs}) ["
+            + "; ".join(steps) + "]")
+
+
+_BRACE_CANDIDATES = []     # sim cases with a brace fill seen by coq_term in this process (for the exact filter)
 
 
 def coq_term(c):
@@ -618,16 +714,9 @@ def coq_term(c):
         return f"k_rtl {_s(c['spec'])} {z(c['w'])} {blit(c['sg'])}"
     if k == "fmt":
         return f"k_fmt {_s(c['spec'])} {z(c['w'])} {blit(c['sg'])} {zlist(c['vs'])}"
-    sigs = "[" + "; ".join(f"Sh {w} {blit(sg)}" for w, sg in c["sigs"]) + "]"
-    steps = []
-    for st in c["steps"]:
-        if st[0] == "set":
-            steps.append(f"StSet {st[1]} {z(st[2])}")
-        elif st[0] == "clk":
-            steps.append(f"StClk {blit(st[1])}")
-        else:
-            steps.append(f"StRst {blit(st[1])}")
-    return f"k_sim {sigs} {blit(c['pos'])} ({_prog_term(c['prog'])}) [" + "; ".join(steps) + "]"
+    if _has_brace(c):
+        _BRACE_CANDIDATES.append(c)
+    return _design_term(c, F7_FAITHFUL, False)
 
 
 def explain(c):
@@ -676,20 +765,63 @@ def _silent(b):
     return all(st[0] == "prop" and st[1] == "cover" and st[3] is None for st in b)
 
 
-def known_finding(case, obs, model):
-    if case["k"] != "sim":
+def _progs(c):
+    c = _upgrade(c)
+    return [dm["prog"] for dm in c["doms"]] + [c["comb"]]
+
+
+def _has_brace(c):
+    return any(ch[0] == "fld" and ch[2][:1] in ("{", "}") and ch[2][1:2] in ("<", ">", "=")
+               for prog in _progs(c) for f in _formats(prog) for ch in f)
+
+
+def _empty_block(c):
+    c = _upgrade(c)
+    if any(_silent(b) for prog in _progs(c) for b in _bodies(prog)):
+        return True
+    for k, dm in enumerate(c["doms"]):      # a process whose whole body is message-less Covers
+        if dm["prog"] and _silent(dm["prog"]) and not dm["rst"] and not any(r["d"] == k for r in c["regs"]):
+            return True
+    return bool(c["comb"]) and _silent(c["comb"])
+
+
+_BRACE_ANSWERS = {}
+
+
+def _brace_answer(case):
+    """the model's answer under the semantics of finding C20-brace-fill (ValueError when a brace-filled field is
+    rendered), computed by Coq — in one batch for every brace case of the run"""
+    import common as C
+    key = C.case_hash(case)
+    if key not in _BRACE_ANSWERS:
+        batch = {C.case_hash(c): c for c in _BRACE_CANDIDATES + [case]}
+        keys = [k for k in batch if k not in _BRACE_ANSWERS]
+        terms = [_design_term(batch[k], F7_FAITHFUL, True) for k in keys]
+        mism, errors = C.run_model(ID + "_brace", RUN_MODULE, terms, [[] for _ in terms], shard_size=SHARD)
+        for i, k in enumerate(keys):
+            _BRACE_ANSWERS[k] = mism.get(i)
+    return _BRACE_ANSWERS[key]
+
+
+def _finding_like(case, obs):
+    """cheap necessary condition (used while shrinking)"""
+    if case["k"] != "sim" or not isinstance(obs, list):
         return None
-    # Cover without message is the only content of a block: the generated code has an empty block
-    # (model = spec: such a Cover does nothing; the code raises IndentationError when the simulator is built)
-    if obs == [-1, sum(map(ord, "IndentationError"))] and (
-            any(_silent(b) for b in _bodies(case["prog"])) or (_silent(case["prog"]) and not case["rst"])):
+    if obs == [-1, sum(map(ord, "IndentationError"))] and _empty_block(case):
         return EMPTY_ID
-    # a '{' or '}' fill is accepted by Format and formatted by Python (model = spec), but the simulator's
-    # re-assembled format string is malformed: ValueError (code 4) when the statement runs
-    if obs[:1] == [4] and any(ch[0] == "fld" and ch[2][:1] in ("{", "}") and ch[2][1:2] in ("<", ">", "=")
-                              for f in _formats(case["prog"]) for ch in f):
+    if obs[:1] == [4] and _has_brace(case):
         return BRACE_ID
     return None
+
+
+def known_finding(case, obs, model):
+    fid = _finding_like(case, obs)
+    # a '{' or '}' fill is accepted by Format and formatted by Python (model = spec), but the simulator's
+    # re-assembled format string is malformed.  Exact filter: the observation must equal the model's answer under the
+    # finding's semantics (ValueError at the moment the brace-filled field is rendered), nothing else is excused.
+    if fid == BRACE_ID and _brace_answer(case) != obs:
+        return None
+    return fid
 
 
 # ------------------------------------------------------------------ shrinking (simulator build failures only)
@@ -726,7 +858,7 @@ def _stmt_variants(stmts):
 
 
 def shrink(case, obs, model):
-    """greedy structural shrinking of a simulation that shows a known finding (drop/simplify statements, drop
+    """greedy structural shrinking of a simulation that shows a known finding (drop/simplify statements, registers,
     steps, as long as the same finding is still observed); other mismatches are replayed as generated"""
     fid = known_finding(case, obs, model) if case["k"] == "sim" else None
     if fid is None:
@@ -734,21 +866,38 @@ def shrink(case, obs, model):
 
     def still(c):
         o = run_impl(c)
-        return o if isinstance(o, list) and known_finding(c, o, None) == fid else None
+        return o if _finding_like(c, o) == fid else None
 
-    cur, cur_obs = case, obs
+    def with_prog(c, k, prog):
+        c = dict(c)
+        if k < len(c["doms"]):
+            c["doms"] = [dict(dm, prog=prog) if j == k else dm for j, dm in enumerate(c["doms"])]
+        else:
+            c["comb"] = prog
+        return c
+
+    cur, cur_obs = _upgrade(case), obs
     progress = True
     while progress:
         progress = False
-        cands = [dict(cur, prog=p) for p in _stmt_variants(cur["prog"]) if p]
+        cands = []
         if cur["steps"]:
-            cands.insert(0, dict(cur, steps=[]))
-            cands += [dict(cur, steps=cur["steps"][:i] + cur["steps"][i + 1:]) for i in range(len(cur["steps"]))]
+            cands.append(dict(cur, steps=[]))
+        if cur["regs"]:
+            cands.append(dict(cur, regs=[]))
+        for k, prog in enumerate(_progs(cur)):
+            cands += [with_prog(cur, k, p) for p in _stmt_variants(prog)]
+        cands += [dict(cur, steps=cur["steps"][:i] + cur["steps"][i + 1:]) for i in range(len(cur["steps"]))]
         for cand in cands:
+            used = {r["i"] for r in cand["regs"]}
+            if any(st[0] == "set" and st[1] in used for st in cand["steps"]):
+                continue
             o = still(cand)
             if o is not None:
                 cur, cur_obs, progress = cand, o, True
                 break
+    if known_finding(cur, cur_obs, None) != fid:
+        return case, obs, model
     import common as C
     mism, errors = C.run_model(ID + "_shrink", RUN_MODULE, [coq_term(cur)], [cur_obs], shard_size=SHARD)
     if errors or 0 not in mism:
